@@ -7,7 +7,6 @@ Local Open Scope Z_scope.
 
 Local Ltac Zify.zify_post_hook ::= Z.div_mod_to_equations.
 Local Opaque q.
-Set Default Timeout 60.
 
 (* ------------------------------------------------------------------ *)
 (** * One CIOS round, pure arithmetic
